@@ -66,7 +66,18 @@ def tsum(t):
 
 
 def addk(x, y=0, k=0):
-    return x + y + k
+    return x + 2 * y + 3 * k
+
+
+def first(t):
+    return t[0]
+
+
+def rec3(x, tag=None, k=0):
+    """a consumer that insists on the extra arguments its sink was given"""
+    if tag != "t" or k != 1:
+        raise TypeError("sink function called with tag=%r k=%r" % (tag, k))
+    return None
 
 
 def add3(a, b, c=0):
@@ -124,7 +135,7 @@ def _record(x):
 
 
 FUNCS = dict((k, _hooked(v)) for k, v in dict(inc=inc, pair=pair, add=add, odd=odd, parity=parity, ident=ident, accrs=accrs,
-                                              nxt=nxt, tsum=tsum, record=_record, addk=addk, add3=add3, gtk=gtk, accw=accw, accn=accn, odd1=odd1).items())
+                                              nxt=nxt, tsum=tsum, record=_record, addk=addk, add3=add3, gtk=gtk, accw=accw, accn=accn, odd1=odd1, first=first, rec3=rec3).items())
 
 
 # ---- node step functions ---------------------------------------------------------------------
@@ -227,7 +238,7 @@ def step(spec, st, port, v, nports=1):
         return tuple(d.items()), []
     if k == "punique":
         _, n, key, keep = spec
-        kk = FUNCS[key](v.val)
+        kk = FUNCS["first" if key == "idx0" else key](v.val)     # idx0: key=0, taken by indexing
         items = list(st)
         if keep == "last":
             items = [(a, b) for a, b in items if a != kk] + [(kk, v)]
@@ -265,7 +276,10 @@ def step(spec, st, port, v, nports=1):
     if k == "collect":
         return st + (v,), []
     if k == "sinkf":       # a sink calling a user function; emits nothing
-        FUNCS[spec[1]](v.val)
+        if spec[1] == "rec3":           # sink(rec3, "t", k=1)
+            FUNCS["rec3"](v.val, "t", k=1)
+        else:
+            FUNCS[spec[1]](v.val)
         return st, []
     if k == "union":
         return st, [v]
